@@ -76,6 +76,9 @@ func (e *ErrReader) Read(p []byte) (int, error) {
 	return n, err
 }
 
+// Delivered is the number of bytes handed out before the fault.
+func (e *ErrReader) Delivered() int { return e.n }
+
 // ErrWriter accepts bytes into Buf until the fault: with AfterBytes >= 0 it accepts exactly that
 // many bytes (a short write followed by Err), otherwise it fails the FailAt-th Write call.
 type ErrWriter struct {
